@@ -76,6 +76,9 @@ Leaves == {
   E(NumL("0"), <<Num("0.0")>>, FALSE, TRUE),
   E(StrL("x"), <<Str("x")>>, FALSE, TRUE),
   E(StrL(""), <<Str("")>>, FALSE, TRUE),
+  E(StrL("say \"hi\""), <<StrX("say \"hi\"")>>, FALSE, TRUE),
+  E(Ref("o'brien"), <<QIdX("o'brien")>>, FALSE, TRUE),
+  E(Ref("l\n1"), <<QId("l\n1")>>, FALSE, TRUE),
   E(StrL("it's \"q\" \\ \n end"), <<Str("it's \"q\" \\ \n end")>>, FALSE, TRUE),
   E(StrL("2000-01-01T00:00:00Z"), <<Str("2000-01-01T00:00:00Z")>>, FALSE, TRUE),
   E(BoolL(TRUE), <<Kw("true")>>, FALSE, TRUE),
@@ -96,6 +99,11 @@ Leaves == {
   E(DurL("2000250000"), <<Dur("2s250{MICRO}")>>, FALSE, TRUE),
   E(DurL("33000000"), <<Dur("30ms3000u")>>, FALSE, TRUE),
   E(DurL("788645006007008"), <<Dur("1w2d3h4m5s6ms7u8ns")>>, FALSE, TRUE),
+  \* the largest whole-unit durations, written so that the printer has to normalise them to that unit
+  E(DurL("9223200000000000000"), <<Dur("15249w7d")>>, FALSE, TRUE),
+  E(DurL("9223286400000000000"), <<Dur("106750d24h")>>, FALSE, TRUE),
+  E(DurL("9223369200000000000"), <<Dur("2562046h60m")>>, FALSE, TRUE),
+  E(DurL("9223372036854775807"), <<Dur("9223372036854775807ns")>>, FALSE, TRUE),
   E(Wild(""), <<P("*")>>, FALSE, TRUE),
   E(Wild("FIELD"), <<P("*"), PT("::"), KwT("field")>>, FALSE, TRUE),
   E(Wild("TAG"), <<P("*"), PT("::"), KwT("TAG")>>, FALSE, TRUE),
